@@ -193,6 +193,26 @@ def paramCount (s : Bytes) : Option Nat :=
     | .error _ => none
     | .ok segments => some (segments.filter (·.parameter)).length
 
+/-- The raw `:name` segments of a pattern text, by the automaton alone (the keys `apply` looks up). -/
+def paramNames (s : Bytes) : Option (List Bytes) :=
+  match parseLoop {} 0 s with
+  | .error _ => none
+  | .ok (a, offset) =>
+    match parseEnd a offset with
+    | .error _ => none
+    | .ok segments => some ((segments.filter (·.parameter)).map (·.str))
+
+/-- `apply` must reject what `unapply` can never produce: a match never binds an empty string and binds every
+parameter, so an `apply` that answers `ok` although the map has no value, or the empty value, for one of the
+pattern's parameters has produced a route that cannot be the image of this map. -/
+def applyProblem (p : String) (kv : String) (ow : List String) : Option String :=
+  match ow.head?, (strArg p).bind paramNames, parseKV kv with
+  | some "ok", some names, some mp =>
+    if names.any (fun n => kvGet n mp == some []) then some "apply-accepted-empty-value"
+    else if names.any (fun n => (kvGet n mp).isNone) then some "apply-accepted-missing-parameter"
+    else none
+  | _, _, _ => none
+
 /-- A match must bind every parameter of the pattern: `some reason` when the number of bindings differs from the
 number of parameters. -/
 def countProblem (p : String) (r : Option (Option String)) : Option String :=
@@ -210,7 +230,7 @@ def Mon.step (m : Mon) (line : String) (out : String) : Mon × Option String :=
   match words line with
   | ["parse", _] => (m, if ow.head? == some "ok" || ow.head? == some "err" then none else some "unexpected-result")
   | ["uri", _] => (m, none)
-  | ["apply", _, _] => (m, none)
+  | ["apply", p, kv] => (m, applyProblem p kv ow)
   | ["un", p, _] | ["unr", p, _] =>
     if out == "badpat" || out == "baduri" then (m, none) else
     match matchOf ow with
@@ -250,15 +270,19 @@ def Mon.step (m : Mon) (line : String) (out : String) : Mon × Option String :=
       | _ => none
     if emptyBinding res then (m, some "param-bound-empty") else
     if (countProblem p res).isSome then (m, countProblem p res) else
+    if (applyProblem p kv ow).isSome then (m, applyProblem p kv ow) else
     match patArg p, parseKV kv with
     | some (.ok pat), some mp =>
-      if pat.wf && mapOk pat mp then
-        -- the round trip must return exactly the map
+      -- entries of the map for names that are not parameters of the pattern are ignored by `apply`
+      let mine : KV := mp.filter fun e => pat.params.contains e.1
+      if pat.wf then
         match ow with
-        | "ok" :: route :: rest =>
-          if matchOf rest == some (some (renderKV mp)) then (m, none)
+        | "ok" :: _ :: rest =>
+          -- fill-then-match gives the values back: whenever `apply` answers, the route matches the same pattern
+          -- with exactly the values that were filled in
+          if matchOf rest == some (some (renderKV mine)) then (m, none)
           else (m, some "roundtrip-differs")
-        | _ => (m, some "apply-failed-on-complete-map")
+        | _ => if mapOk pat mine then (m, some "apply-failed-on-complete-map") else (m, none)
       else (m, none)
     | _, _ => (m, none)
   | _ => (m, some "unparsable")
